@@ -5,7 +5,8 @@ import random
 import core
 import decsuite as ds
 
-THEOREMS = ["C14.c14_total_b", "C14.shaped_of_b", "C14.c14_hex", "C14.c14_hex_top", "C14.c14_row_columns", "C14.c14_total", "C14.c14_total_top",
+THEOREMS = ["C14.decoder_shaped", "C14.c14_shape_tables", "C14.c14_decoder_total", "runWalker_gd", "decode_gd", "decodeCommand_gd",
+            "decodeResponse_gd", "decodeStream_gm", "C14.c14_total_b", "C14.shaped_of_b", "C14.c14_hex", "C14.c14_hex_top", "C14.c14_row_columns", "C14.c14_total", "C14.c14_total_top",
             "C14.foldBytes_hex", "C14.foldElems_hex", "C14.c14_events_rows"]
 
 
@@ -102,7 +103,8 @@ def run(ctx, replay_case):
     })
 
 
-PROP = {"targets": ["TpmProofs.Props.C14E"], "module": "TpmProofs.Props.C14E", "theorems": THEOREMS, "run": run,
+PROP = {"targets": ["TpmProofs.Props.C14S"], "module": "TpmProofs.Props.C14S", "theorems": THEOREMS, "run": run,
         "assumptions": ["final string padding and colour codes are not modelled (rows are compared column-wise)",
-                        "that decoder-produced streams are shaped (`shapedB`: values of primitive classes, byte-buffer children carry values) is evaluated on every "
-                        "stream by the model (K line of PRINT) and independently on the implementation's events; it is not proved of the decoder"]}
+                        "that decoder-produced streams are shaped (`shapedB`: values of primitive classes, byte-buffer children carry values) is a theorem "
+                        "(C14.decoder_shaped: every layout of /repo, commands, responses, streams, either mode, every input); it is additionally evaluated on every "
+                        "stream by the model (K line of PRINT) and independently on the implementation's events"]}
